@@ -113,6 +113,13 @@ def run(ctx):
     exs = [c for c in sfn.calls_to(r"Option::expect$") if expr(sfn, c.args[0]) == "file_name(path)"]
     res.check(all(has_bool(sfn, c.bb, "T", r"^path_has_name\(path\)$") for c in exs), "R18.2", "lemma|expect-under-path_has_name", sfn.where(), "file_name().expect only under path_has_name(path)",
               "split_file_name unwraps file_name() outside the path_has_name(path) edge")
+    # lemma behind the audited split_at in rsplit_delimiter: index = position of the delimiter + ITS encoded length (a char boundary)
+    rd = fx.body("clap_complete::engine::complete::rsplit_delimiter")
+    for c in rd.calls_to(r"^str::split_at$"):
+        e = expr(rd, c.args[1])
+        m = re.fullmatch(r"Add\(branch\(rfind\((.*),(.*)\)\)#Continue\.0,len_utf8\((.*)\)\)", e)
+        res.check(m is not None and m.group(2) == m.group(3) and expr(rd, c.args[0]) == m.group(1), "R18.2", "lemma|rsplit-index-is-boundary", c.where(), "split_at(rfind(delim) + delim.len_utf8())",
+                  "rsplit_delimiter splits at %s: with a multi-byte value delimiter this is not a char boundary and split_at panics" % e[:100])
     # the adapters' `args.len() - 1` is only sound because the internal caller guards non-emptiness
     tc = fx.body("clap_complete::env::CompleteEnv::try_complete_")
     wc = tc.calls_to(r"EnvCompleter::write_complete$")
